@@ -71,6 +71,25 @@ fn main() {
     let workers: usize = std::env::var("VERIF_WORKERS").ok().and_then(|s| s.parse().ok()).unwrap_or(16);
     let code = match args[1].as_str() {
         "replay" => checks::replay_file(&args[2], &lookup),
+        // ecsim run-one <property> <check> <tier> <run_seed> <nonce>: one run, decisions drawn from the seed
+        "run-one" if args.len() >= 7 => {
+            let thorough = args[4] == "thorough";
+            match lookup(&args[2], &args[3], thorough) {
+                None => 2,
+                Some(case) => {
+                    let rs: u64 = args[5].parse().unwrap_or(0);
+                    let nonce: u64 = args[6].parse().unwrap_or(0);
+                    let out = case(rs, nonce, None);
+                    match out.violations.first() {
+                        Some(v) => {
+                            println!("violation: {} [{}] {}", v.clause, v.signature, v.detail);
+                            1
+                        }
+                        None => 0,
+                    }
+                }
+            }
+        }
         id @ ("C01" | "C02" | "C03" | "C06") => {
             let tier = args.get(2).map(|s| s.as_str()).unwrap_or("quick");
             c_pdu::run_property(id, tier, seed, workers)
